@@ -317,7 +317,7 @@ class InvalidCase:
 
 @st.composite
 def invalid_cases(draw: Any) -> InvalidCase:
-    rule = V.RULES[draw(st.integers(0, (1 << 20) - 1)) % len(V.RULES)]
+    rule = V.WEIGHTED_RULES[draw(st.integers(0, (1 << 20) - 1)) % len(V.WEIGHTED_RULES)]
     m = draw(V.mutants(rules=[rule]))
     r = draw(st.integers(0, (1 << 20) - 1)) % 40
     return InvalidCase(m, draw(st.sampled_from(LANGS)), r % 2 == 1, r == 3)
